@@ -571,13 +571,13 @@ func init() {
 	register(&Check{
 		ID:    "C18",
 		Level: "model_checking",
-		Rule: "threads = parse calls (each followed by hashing and walking its own result) sharing input buffers and one options value; scenarios: realtime||realtime on the same buffer (a valid one; a rejected one: HTML + half a feed), on two copies of a feed of NYCT oddities (assigned trips without train id, updates without stop id) and on two different feeds (elevator feeds that share groups for nyctalerts), static||static on the same archive (known and never-seen unknown agency zone; members with UTF-8 / UTF-16 byte order marks; an archive of 1030 trips with a duplicate trip id, alone and twice; two archives rejected for an empty member of different names; two whose stop_times.txt makes the CSV reader fail; an archive with one rejected row of every kind, a missing optional file and column), realtime||realtime on a kitchen-sink feed (every optional field, alerts with route fall-backs, label-only and bare vehicles), static||realtime, journal+CSV export||journal+CSV export, static||static on archives lacking different required files (each call keeps the error it was given and reads it again when all threads are done), realtime||realtime with options of their own whose time zones differ (alternating start dates: each must be the start of its day in the zone of its own call), for 8 configurations (nil Extension with and without Timezone, no-op, nycttrips and nyctalerts behind a yielding proxy, nycttrips and two nyctalerts policies unwrapped with the default zone); thorough adds 3-thread scenarios; every interleaving at the scheduling points (extension method calls + per-entity / per-file hooks) with <= 2 preemptions (thorough <= 4; <= 2 for three threads), each executed under -race with a hand-off the detector cannot see; " +
+		Rule: "threads = parse calls (each followed by hashing and walking its own result) sharing input buffers and one options value; scenarios: realtime||realtime on the same buffer (a valid one; a rejected one: HTML + half a feed), on two copies of a feed of NYCT oddities (assigned trips without train id, updates without stop id) and on two different feeds (elevator feeds that share groups for nyctalerts), static||static on the same archive (known and never-seen unknown agency zone; members with UTF-8 / UTF-16 byte order marks; an archive of 1030 trips with a duplicate trip id, alone and twice; two archives rejected for an empty member of different names; two whose stop_times.txt makes the CSV reader fail; an archive with one rejected row of every kind, a missing optional file and column), realtime||realtime on a kitchen-sink feed (every optional field, alerts with route fall-backs, label-only and bare vehicles), static||realtime, journal+CSV export||journal+CSV export, static||static on archives lacking different required files (each call keeps the error it was given and reads it again when all threads are done), realtime||realtime with options of their own whose time zones differ (alternating start dates: each must be the start of its day in the zone of its own call), for 8 configurations (nil Extension with and without Timezone, no-op, nycttrips and nyctalerts behind a yielding proxy, nycttrips and two nyctalerts policies unwrapped with the default zone); thorough adds 3-thread scenarios; every interleaving at the scheduling points (extension method calls + per-entity / per-file hooks) with <= 2 preemptions (thorough <= 3; <= 2 for three threads), each executed under -race with a hand-off the detector cannot see; " +
 			"non-trivial = distinct schedules in which both threads ran between points; oracle = zero race reports (runtime.RaceErrors per schedule) and every call's dump equal to its solo dump",
 		Assumptions: []string{"the Go race detector is trusted (no false positives; bounded shadow history)", "synchronisation inside the standard library / protobuf (sync.Pool, sync.Once) creates real happens-before edges that can hide a conflict in one schedule; the explored preemptions move the calls relative to those edges", "exhaustive over schedules at the listed points within the preemption bound, and over memory for the executed paths; not over inputs"},
 		Scenarios: func(tier string) []*Scenario {
 			k := 2
 			if tier == "thorough" {
-				k = 4
+				k = 3 // with 4 the scenarios below do not finish inside the time cap (measured: 2 million schedules in 90 minutes, not exhaustive)
 			}
 			var s []*Scenario
 			for _, cfg := range c18Configs {
